@@ -8,6 +8,7 @@ package tbtc
 
 import (
 	"crypto/ecdsa"
+	"crypto/elliptic"
 	"errors"
 	"fmt"
 	"math/big"
@@ -69,21 +70,112 @@ func (a *c25Action) execute() error {
 	return err
 }
 
+// c25KeyPool: private scalars of secp256k1 keys by shape of the public key.
+// Searched once per process over small scalars (deterministic): keys whose X
+// and/or Y coordinate has a leading zero byte (about 1 in 128 each) have a
+// shorter big.Int.Bytes() than the fixed-width encoding.
+var c25KeyPool struct {
+	once                         sync.Once
+	normal, shortX, shortY, both []int64
+}
+
+func c25Keys() (normal, shortX, shortY, both []int64) {
+	c25KeyPool.once.Do(func() {
+		kp := &c25KeyPool
+		for d := int64(2); d < 40000; d++ {
+			x, y := tecdsa.Curve.ScalarBaseMult(big.NewInt(d).Bytes())
+			sx, sy := x.BitLen() <= 248, y.BitLen() <= 248
+			switch {
+			case sx && sy:
+				if len(kp.both) < 2 {
+					kp.both = append(kp.both, d)
+				}
+			case sx:
+				if len(kp.shortX) < 4 {
+					kp.shortX = append(kp.shortX, d)
+				}
+			case sy:
+				if len(kp.shortY) < 4 {
+					kp.shortY = append(kp.shortY, d)
+				}
+			default:
+				if len(kp.normal) < 4 {
+					kp.normal = append(kp.normal, d)
+				}
+			}
+			if len(kp.shortX) >= 4 && len(kp.shortY) >= 4 && len(kp.normal) >= 4 && (len(kp.both) >= 1 || d > 3000) {
+				break
+			}
+		}
+	})
+	return c25KeyPool.normal, c25KeyPool.shortX, c25KeyPool.shortY, c25KeyPool.both
+}
+
 func c25Run(t *testing.T, r *verifsim.Run) {
 	tp := r.T
 	sc := &c25Scenario{gates: verifsim.NewGates()}
-	defer sc.gates.ReleaseAll()
+	lockLeaked := false
+	defer func() {
+		// with a leaked dispatcher lock the released actions would block on a
+		// sync.Mutex in their clean-up and the bubble could never end; leave
+		// them parked (durably blocked) instead
+		if !lockLeaked {
+			sc.gates.ReleaseAll()
+		}
+	}()
 
 	nW := 2 + tp.Choose("wallets", 3)
 	steps := 6 + tp.Choose("steps", 30)
 	wallets := make([]wallet, nW)
+	kNormal, kShortX, kShortY, kBoth := c25Keys()
+	usedKey := map[int64]bool{}
+	shapes := make([]string, nW)
 	for i := range wallets {
-		x, y := tecdsa.Curve.ScalarBaseMult(big.NewInt(int64(1000 + 7*i)).Bytes())
+		// key shape by tape: 0 ordinary, 1 Y with a leading zero byte, 2 X with
+		// a leading zero byte, 3 both
+		pools := [][]int64{kNormal, kShortY, kShortX, kBoth}
+		names := []string{"plain", "shortY", "shortX", "shortXY"}
+		wk := []int{3, 2, 2, 1}
+		if len(kBoth) == 0 {
+			wk[3] = 0
+		}
+		shape := tp.Weighted("wallet-key-shape", wk...)
+		if len(pools[shape]) == 0 {
+			shape = 0
+		}
+		var d int64
+		for _, c := range pools[shape] {
+			if !usedKey[c] {
+				d = c
+				break
+			}
+		}
+		if d == 0 { // pool of that shape exhausted
+			shape = 0
+			for c := int64(50001); ; c++ {
+				if !usedKey[c] {
+					d = c
+					break
+				}
+			}
+		}
+		usedKey[d] = true
+		shapes[i] = names[shape]
+		if shape != 0 {
+			r.Fault("wallet-key-" + names[shape])
+		}
+		x, y := tecdsa.Curve.ScalarBaseMult(big.NewInt(d).Bytes())
 		wallets[i] = wallet{publicKey: &ecdsa.PublicKey{Curve: tecdsa.Curve, X: x, Y: y}}
 	}
+	// a wallet value whose public key is not on the wallet curve (P-256): the
+	// dispatcher cannot encode it; dispatching it must fail promptly and must
+	// not disturb anybody else.
+	p256 := elliptic.P256()
+	bx, by := p256.ScalarBaseMult(big.NewInt(4711).Bytes())
+	badWallet := wallet{publicKey: &ecdsa.PublicKey{Curve: p256, X: bx, Y: by}}
 	sc.inflight = make([]int, nW)
 	sc.outcome = make([]error, nW)
-	r.Logf("cfg wallets=%d steps=%d", nW, steps)
+	r.Logf("cfg wallets=%d shapes=%v steps=%d", nW, shapes, steps)
 
 	wd := newWalletDispatcher()
 	types := []WalletActionType{ActionNoop, ActionHeartbeat, ActionDepositSweep, ActionRedemption, ActionMovingFunds, ActionMovedFundsSweep}
@@ -105,8 +197,77 @@ func c25Run(t *testing.T, r *verifsim.Run) {
 		done    bool
 	}
 
+	// lockFree probes the dispatcher's mutex at quiescence (in-package
+	// white-box probe): nothing is running, so nobody may hold it; if it is
+	// held, every further dispatch and every completion would block forever
+	// (and, blocking on a sync.Mutex, could not even be waited out by the
+	// simulator). Reported as the liveness violation it causes.
+	lockFree := func(after string) bool {
+		if wd.actionsMutex.TryLock() {
+			wd.actionsMutex.Unlock()
+			return true
+		}
+		lockLeaked = true
+		r.Failf("C25:dispatch-blocked", "the dispatcher's lock is still held at quiescence after %s: every later dispatch for every wallet blocks forever", after)
+		return false
+	}
+
 	for s := 0; s < steps && !r.Failed(); s++ {
 		r.Step()
+		if tp.Chance("dispatch-foreign-curve-wallet", 1, 8) {
+			// alone in its step: if the dispatcher mishandled it, operations
+			// started together with it could block on a sync.Mutex, which the
+			// simulator cannot wait out
+			nextID++
+			a := &c25Action{sc: sc, id: nextID, w: 0, wal: badWallet, typ: types[tp.Choose("action-type", len(types))]}
+			var err error
+			var pan interface{}
+			finished := false
+			go func() {
+				defer func() {
+					p := recover()
+					sc.mu.Lock()
+					pan, finished = p, true
+					sc.mu.Unlock()
+				}()
+				e := wd.dispatch(a)
+				sc.mu.Lock()
+				err = e
+				sc.mu.Unlock()
+			}()
+			synctest.Wait()
+			sc.mu.Lock()
+			e, p, fin, st := err, pan, finished, a.starts
+			sc.mu.Unlock()
+			r.Fault("foreign-curve-wallet-dispatched")
+			r.Logf("step dispatch(foreign-curve wallet) finished=%v failed=%v", fin, e != nil)
+			switch {
+			case !fin:
+				r.Failf("C25:dispatch-blocked", "dispatch for a wallet whose key is not on the wallet curve has not returned at quiescence")
+			case p != nil:
+				r.Failf("C25:dispatch-panic", "dispatch for a wallet whose key is not on the wallet curve panicked: %v", p)
+			case e == nil || st != 0:
+				r.Failf("C25:unencodable-wallet-accepted", "dispatch for a wallet whose key is not on the wallet curve returned %v and execute() ran %d times; want an error and no execution", e, st)
+			case errors.Is(e, errWalletBusy):
+				r.Failf("C25:unexpected-error", "dispatch for a never-used wallet with a foreign-curve key returned errWalletBusy")
+			}
+			if r.Failed() {
+				return
+			}
+			if !lockFree("a failed dispatch (wallet key not on the wallet curve)") {
+				return
+			}
+			busyAny := false
+			for w := 0; w < nW; w++ {
+				if busy[w] {
+					busyAny = true
+				}
+			}
+			if busyAny {
+				r.Probe("foreign-curve-dispatch-while-wallets-busy")
+			}
+			continue
+		}
 		nOps := 1 + tp.Weighted("batch", 5, 3, 2, 1, 1)
 		var ops []*op
 		relW := map[int]bool{}
@@ -331,6 +492,9 @@ func c25Run(t *testing.T, r *verifsim.Run) {
 			running[w] = acc
 		}
 		r.Logf("step%s", desc)
+		if !lockFree("a batch of dispatches/completions") {
+			return
+		}
 		if len(double) > 0 {
 			r.Failf("C25:two-actions-in-flight", "%s", double[0])
 			return
